@@ -243,6 +243,18 @@ def r18c(F):
 			if 'metadata' in ks and ('to_byte_array' in ks or 'hmac' in ks):
 				kinds.add('hmac')
 		ok = kinds == {'derived-key', 'hmac'}
+		# the key comparison is over the full (33-byte, parity included) encodings of both keys
+		for b in fe:
+			es = [ex.of_operand(a) for a in vm.blocks[b]['t'][2]['args']]
+			ks = ' '.join(leaf_key(e) for e in es)
+			if 'signing_pubkey' in ks and ('from_secret_key' in ks or 'public_key' in ks):
+				def outer_call(e):
+					while e[0] in ('ref', 'deref', 'cast', 'index'):
+						e = e[1]
+					return e[1] if e[0] == 'call' else None
+				oc = [outer_call(e) for e in es]
+				full = all(c is not None and c.endswith('secp256k1::key::PublicKey::serialize') for c in oc) and not any('x_only' in leaf_key(e) for e in es)
+				out.append(Result('18.c', full, ('ok:' if full else 'shape:') + 'full-key-compared', 'the signing key and the derived key are compared by their full PublicKey::serialize() encodings (%s)%s' % ([str(c).rsplit('::', 2)[-2:] for c in oc], '' if full else ' - an x-only / truncated comparison accepts the negated key, which the excluded issuer_id TLV does not otherwise bind'), 1, where=F.where(vm.name, vm.line_of(b))))
 		out.append(Result('18.c', ok, ('ok:' if ok else 'shape:') + 'compared-values', 'verify_metadata compares the signing key with the key derived from the HMAC, resp. the metadata tail with the HMAC (%s)' % sorted(kinds), 2, where=F.where(vm.name)))
 	# the hmac branch also requires the exact length
 	gs = [Guard(vm, c) for c in comparisons(vm)]
